@@ -1008,6 +1008,19 @@ func c09rejections(c *Ctx) {
 					ps := c09presentations(m)
 					odd = append(odd, rootedFirst(ps))
 				}
+				// one taxon replaced by a second copy of another one (same number of tips, one taxon missing), unrooted and rooted
+				if ti%3 == 0 {
+					d := c09lengths(t, 1)
+					for _, tp := range d.Tips() {
+						if tp.Name == labels[x] {
+							tp.Name = labels[(x+1)%n]
+						}
+					}
+					odd = append(odd, d.Newick())
+					if x%2 == 0 {
+						odd = append(odd, rootedFirst(c09presentations(d)))
+					}
+				}
 			}
 		}
 		for _, t := range enum.Unrooted(enum.Labels(n+1, ""), false) {
